@@ -25,14 +25,18 @@ RULE = ('random: every sequential catalogue block x legal configuration x H hist
         'non-trivial when every control input took both values and the reference state changed >= 3 times; distinct by '
         '(block, config, history content).  bfs: for small configurations a breadth-first walk over the real simulator state '
         'space, every documented input vector applied once from every reachable (real state, reference state) pair; one '
-        'evaluation = one transition compared; each explored pair counts as one distinct non-trivial case')
+        'evaluation = one transition compared; each explored pair counts as one distinct non-trivial case.  compose: every '
+        'configuration once more with each output wired to a plain register and to one more sequential catalogue block, each '
+        'instantiated before and after the block under test; the followers are judged as the composition of the two reference '
+        'machines (stepping from the pre-edge values of their input nets); non-trivial when the block and a follower changed '
+        'state >= 3 times')
 SHARDS = {'quick': 1, 'thorough': 16}
 TIMEOUT = {'quick': 600, 'thorough': 3000}
 MIN_NONTRIVIAL = {'quick': 300, 'thorough': 3000}
 
 PARAMS = {
-    'quick': dict(hist=8, cycles=600, bfs_states=4096, bfs_vectors=1024, seconds=420),
-    'thorough': dict(hist=10, cycles=4000, bfs_states=4096, bfs_vectors=4096, seconds=2400),
+    'quick': dict(compose_hist=2, compose_cycles=200, hist=8, cycles=600, bfs_states=4096, bfs_vectors=1024, seconds=420),
+    'thorough': dict(compose_hist=4, compose_cycles=1000, hist=10, cycles=4000, bfs_states=4096, bfs_vectors=4096, seconds=2400),
 }
 DUTIES = (0.05, 0.5, 0.95)
 
@@ -218,7 +222,7 @@ def gen_history(entry, cfg, rnd, n):
 
 class PB:
     """per-block counters, kept as flat {block: n} dicts in run.extra so that shard results add up key-wise"""
-    METRICS = ('configs', 'histories', 'edges', 'nontrivial', 'raised', 'bfs_configs', 'bfs_states', 'bfs_transitions')
+    METRICS = ('configs', 'histories', 'edges', 'nontrivial', 'raised', 'bfs_configs', 'bfs_states', 'bfs_transitions', 'compositions')
 
     def __init__(self, run, name):
         self.run, self.name = run, name
@@ -374,6 +378,173 @@ def bfs_job(run, entry, cfg, p, deadline):
                         real_states=len(real_states), transitions=transitions, exhausted=not (failed or truncated)))
 
 
+# --------------------------------------------------------------------------- composition with downstream clocked blocks
+
+def follower_candidates(w):
+    """(block, config, input port) of catalogue blocks that can take a w-bit net on one of their inputs"""
+    c = [('Reg', (w, 1, 1, 1), 'd'), ('DelayLine', (w, 2, 1, 1), 'a'), ('DelayLine', (w, 1, 0, 0), 'a'), ('PipelinePhase', ((w, 1),), 'in0'),
+         ('ShiftRegisterBidirectional', (w, 2), 'left_in'), ('ShiftRegisterBidirectional', (w, 1), 'right_in'),
+         ('Stack_ShiftRegister', (w, 2), 'din'), ('StepUpCounter', (max(w, 2), w, 1), 'step'),
+         ('SynchronousMemory', (2, w), 'writedata')]
+    if w <= 6:
+        c += [('SynchronousMemory', (w, 3), 'read_address'), ('SynchronousMemory', (w, 3), 'write_address')]
+    if w == 1:
+        c += [('TReg', (1, 1), 't'), ('TReg', (1, 1), 'e'), ('Counter', (3, 1, 1), 'inc'), ('Counter', (3, 1, 1), 'reset'),
+              ('EdgeDetector', ('both',), 'a'), ('ModuloCounter', (2, 3), 'inc'), ('Reg', (4, 1, 0, None), 'e'), ('Reg', (4, 0, 1, 9), 'r'),
+              ('SynchronousMemory', (2, 2), 'write'), ('Stack_ShiftRegister', (2, 2), 'push'), ('DelayLine', (3, 2, 1, 1), 'en')]
+    return c
+
+
+def gen_compose_plan(entry, cfg, rnd):
+    """every output of the block under test feeds a plain register and one more sequential catalogue block, each of them
+    once instantiated BEFORE and once AFTER the block under test (the order decides who is clocked first)"""
+    fol = []
+    for o, w in entry.ports(cfg)[1].items():
+        for order in ('after', 'before'):
+            fol.append(dict(id='f%d' % len(fol), entry='Reg', cfg=(w, 0, 0, None), port='d', src=o, order=order))
+            name, fcfg, port = rnd.choice(follower_candidates(w))
+            fol.append(dict(id='f%d' % len(fol), entry=name, cfg=fcfg, port=port, src=o, order=order))
+    return fol
+
+
+def gen_compose_history(entry, cfg, fol, rnd, n):
+    hist = gen_history(entry, cfg, rnd, n)
+    for f in fol:
+        fe = seqcat.by_name(f['entry'])
+        fh = gen_history(fe, f['cfg'], rnd, n)
+        for t in range(n):
+            for port, v in fh[t].items():
+                if port != f['port']:
+                    hist[t]['%s_%s' % (f['id'], port)] = v
+    return hist
+
+
+class ComposedDut:
+    def __init__(self, entry, cfg, fol):
+        import py4hw
+        hw = py4hw.HWSystem()
+        py4hw.Wire.prepared = []
+        self.hw = hw
+        pi, po = entry.ports(cfg)
+        self.ins = {k: hw.wire(k, w) for k, w in pi.items()}
+        self.outs = {k: hw.wire(k, w) for k, w in po.items()}
+        self.ow = dict(po)
+        self.pokes = dict(self.ins)
+        self.fol = []
+        for f in fol:
+            fe = seqcat.by_name(f['entry'])
+            fpi, fpo = fe.ports(f['cfg'])
+            fi = {}
+            for port, w in fpi.items():
+                if port == f['port']:
+                    fi[port] = self.outs[f['src']]
+                else:
+                    fi[port] = hw.wire('%s_%s' % (f['id'], port), w)
+                    self.pokes['%s_%s' % (f['id'], port)] = fi[port]
+            fo = {o: hw.wire('%s_%s' % (f['id'], o), w) for o, w in fpo.items()}
+            self.fol.append(dict(spec=f, entry=fe, cfg=f['cfg'], ins=fi, outs=fo, ow=dict(fpo), state=fe.init(f['cfg']), changes=0))
+        # instantiation order = order of the leaves in the simulator's clockables list
+        for r in self.fol:
+            if r['spec']['order'] == 'before':
+                r['entry'].make(hw, r['spec']['id'], r['cfg'], r['ins'], r['outs'])
+        entry.make(hw, entry.inst, cfg, self.ins, self.outs)
+        for r in self.fol:
+            if r['spec']['order'] == 'after':
+                r['entry'].make(hw, r['spec']['id'], r['cfg'], r['ins'], r['outs'])
+        self.sim = hw.getSimulator()
+
+
+def compose_lockstep(run, entry, cfg, fol, hist):
+    """the block under test is judged as in lockstep(); every follower is judged as the composition of the two machines:
+    its reference steps from the values its input nets really had before the edge (for the connected port: the output of
+    the block under test before the edge), so a clocked block must see the pre-edge outputs of every other clocked block"""
+    case = dict(block=entry.name, cfg=cfg, mode='compose', followers=fol, history=hist)
+    try:
+        with muted():
+            dut = ComposedDut(entry, cfg, fol)
+    except Exception as e:
+        run.violation('c09_build_raises', dict(block=entry.name, exc=type(e).__name__, mode='compose'),
+                      dict(block=entry.name, cfg=cfg, followers=fol), observed=repr(e)[:200],
+                      what='%s%r with downstream blocks does not build: %r' % (entry.name, cfg, e))
+        return 'build', None
+    st = entry.init(cfg)
+    changes = 0
+    upstream = list(entry.ports(cfg)[0])
+    with muted():
+        for t, vals in enumerate(hist):
+            for k, w in dut.pokes.items():
+                w.put(vals[k])
+            uvals = {k: vals[k] for k in upstream}
+            try:
+                dut.sim.propagateAll()
+                if entry.pre is not None and t > 0:
+                    bad = compare(entry.pre(cfg, st, uvals), {k: w.get() for k, w in dut.outs.items()}, dut.ow)
+                    if bad:
+                        _report_mismatch(run, entry, cfg, case, t, 'pre', bad, uvals)
+                        return 'mismatch', t
+                pre = [{p: w.get() for p, w in r['ins'].items()} for r in dut.fol]
+                dut.sim.clk(1)
+            except Exception as e:
+                key, fields = classify_exception(entry, e)
+                fields['edge'] = 'first' if t == 0 else 'later'
+                run.violation(key, fields, dict(case, history=hist[:t + 1], cycle=t), observed=repr(e)[:200],
+                              what='%s%r (with downstream blocks) raises at edge %d: %r' % (entry.name, cfg, t + 1, e))
+                return 'raised', t
+            st2, exp = entry.step(cfg, st, uvals)
+            if st2 != st:
+                changes += 1
+            st = st2
+            run.ev()
+            bad = compare(exp, {k: w.get() for k, w in dut.outs.items()}, dut.ow)
+            if bad:
+                _report_mismatch(run, entry, cfg, case, t, 'post', bad, uvals)
+                return 'mismatch', t
+            for r, ins in zip(dut.fol, pre):
+                fe, fcfg = r['entry'], r['cfg']
+                s2 = fe.nxt(fcfg, r['state'], ins)
+                if s2 != r['state']:
+                    r['changes'] += 1
+                r['state'] = s2
+                post = {p: w.get() for p, w in r['ins'].items()}
+                bad = compare(fe.out(fcfg, s2, post), {k: w.get() for k, w in r['outs'].items()}, r['ow'])
+                run.count('composition_checks')
+                if bad:
+                    o, ev, ov = bad
+                    f = r['spec']
+                    run.violation('c09_composition', dict(block=entry.name, follower=fe.name, port=f['port'], order=f['order']),
+                                  dict(case, history=hist[:t + 1], cycle=t, follower=f['id'], out=o), expected=ev, observed=ov,
+                                  what='%s%r output %s -> %s%r port %s (instantiated %s it): cycle %d follower output %s expected %d got %d '
+                                       '(the follower must step from the values its inputs had before the edge: %r)'
+                                       % (entry.name, cfg, f['src'], fe.name, fcfg, f['port'], f['order'], t + 1, o, ev, ov, ins))
+                    return 'mismatch', t
+    moved = sum(1 for r in dut.fol if r['changes'] >= 3)
+    return 'ok', dict(nontrivial=changes >= 3 and moved > 0, changes=changes, followers_moved=moved)
+
+
+def compose_job(run, entry, cfg, rnd, p):
+    pb = PB(run, entry.name)
+    for h in range(p['compose_hist']):
+        fol = gen_compose_plan(entry, cfg, rnd)
+        hist = gen_compose_history(entry, cfg, fol, rnd, p['compose_cycles'])
+        status, info = compose_lockstep(run, entry, cfg, fol, hist)
+        pb['compositions'] += 1
+        for f in fol:
+            d = run.extra.setdefault('followers_by_block_and_order', {})
+            k = '%s/%s' % (f['entry'], f['order'])
+            d[k] = d.get(k, 0) + 1
+        if status == 'ok':
+            if info['nontrivial']:
+                run.nt('c:' + stable_hash([entry.name, cfg, fol, hist]))
+            if run.counters.get('composition_checks', 0) % 53 == 1:
+                run.sample(dict(mode='compose', block=entry.name, cfg=cfg, followers=[(f['entry'], f['cfg'], f['port'], f['src'], f['order']) for f in fol],
+                                cycles=len(hist), state_changes=info['changes']))
+        elif status == 'raised':
+            pb['raised'] += 1
+            break
+        else:
+            break
+
+
 # --------------------------------------------------------------------------- entry points
 
 def run_check(run, tier, seed, shard):
@@ -384,6 +555,8 @@ def run_check(run, tier, seed, shard):
     run.assume('simultaneous push+pop, simultaneous shift-left+shift-right and two ports writing one address in one cycle '
                'are undocumented and never applied; a pop beyond the stored elements returns an unspecified value (not judged)')
     run.assume('memories: a read returns the content of the read address before that edge\'s writes, on every port')
+    run.assume('composition: a clocked block wired to the output of another clocked block sees, at an edge, the value that output '
+               'had before the edge, whichever of the two was instantiated first (outputs of clocked blocks change at settle only)')
     run.assume('Counter without inc port always increments, without reset port never resets; ClockDivider toggles every '
                'floor(freq_in/(2 freq_out)) edges starting from 0; AutoReset is 1 after edges 1 and 2 and 0 afterwards; '
                'Sequence shows values[k-1] after edge k')
@@ -394,6 +567,9 @@ def run_check(run, tier, seed, shard):
             jobs.append(('random', e, cfg))
         for cfg in e.bfs_configs(tier):
             jobs.append(('bfs', e, cfg))
+        for cfg in e.configs(tier):
+            if max(list(e.ports(cfg)[1].values())) <= 64:
+                jobs.append(('compose', e, cfg))
     jobs = shard_slice(jobs, shard)
     for kind, e, cfg in jobs:
         if run.too_many:
@@ -403,6 +579,8 @@ def run_check(run, tier, seed, shard):
             continue
         if kind == 'random':
             random_job(run, e, cfg, rng(seed, 'C09', e.name, cfg), p)
+        elif kind == 'compose':
+            compose_job(run, e, cfg, rng(seed, 'C09', 'compose', e.name, cfg), p)
         else:
             bfs_job(run, e, cfg, p, deadline)
     if shard is None or shard[0] == 0:
@@ -430,7 +608,11 @@ def replay(run, case):
     cfg = seqcat.cfg_from_json(c['cfg'])
     hist = [{k: (int(v, 16) if isinstance(v, str) else v) for k, v in h.items()} for h in c['history']]
     n0, k0 = len(run.violations), sum(v[1] for v in run.known_hits.values())
-    status, info = lockstep(run, e, cfg, hist, 'replay')
+    if c.get('mode') == 'compose':
+        fol = [dict(f, cfg=seqcat.cfg_from_json(f['cfg'])) for f in c['followers']]
+        status, info = compose_lockstep(run, e, cfg, fol, hist)
+    else:
+        status, info = lockstep(run, e, cfg, hist, 'replay')
     print('replay', c['block'], cfg, '%d cycles' % len(hist), '->', status, info)
     for v in run.violations[n0:]:
         print('  ', v['what'])
